@@ -75,17 +75,18 @@ type Sched struct {
 	// synchronisation the scheduler does not model (code under test that waits on its own channel or mutex). Instead
 	// of raising an alarm the scheduler lets another thread run; from then on hooks identify their thread by
 	// goroutine id. Runs that entered this mode are flagged: their interleaving is no longer fully tape-decided.
-	degraded atomic.Bool
-	goids    [16]atomic.Int64
-	stalled  map[int]bool
-	Stall    time.Duration
-	killed   atomic.Bool
-	ids      map[uintptr]int
-	locks    map[int]int // lock id → owner thread id+1 (0 = free)
-	Trace    []Event
-	Switches int
-	Steps    int64
-	MaxSteps int64
+	degraded  atomic.Bool
+	goids     [16]atomic.Int64
+	stalled   map[int]bool
+	allocBase uint64
+	Stall     time.Duration
+	killed    atomic.Bool
+	ids       map[uintptr]int
+	locks     map[int]int // lock id → owner thread id+1 (0 = free)
+	Trace     []Event
+	Switches  int
+	Steps     int64
+	MaxSteps  int64
 	// Quantum draws the number of loop points a thread may run before yielding.
 	Quantum func(t *Tape) int32
 	// Eval protocol state
@@ -449,6 +450,15 @@ func (s *Sched) Run() error {
 			s.Deadlock = s.describe()
 			s.kill()
 			break
+		}
+		if len(s.Trace)&63 == 0 {
+			// allocation guard (see StepCounter)
+			a := heapAllocBytes()
+			if s.allocBase == 0 {
+				s.allocBase = a
+			} else if a-s.allocBase > 2<<30 {
+				s.Steps = s.MaxSteps + 1
+			}
 		}
 		if s.Steps > s.MaxSteps || len(s.Trace) > int(4*s.MaxSteps) {
 			s.Overrun = true
